@@ -34,6 +34,7 @@ RULE = ("seeded generator over operator (grad, laplacian without/with grad=, div
         "result was compared with the validated "
         "analytic value; distinct = (operator, laplacian mode, dims of the derivative variables in call order, "
         "presence of other variables, partial order, batch rank, dtype, strongest dependence template of the field).")
+RULE += '; every fifth case calls the operator, scales the field tensor in place and calls the operator again on the same tensor object'
 REQUIRED_REACH = ["grad", "laplacian", "div", "jac", "rot", "partial", "normal_derivative", "convective",
                   "sym_grad", "matrix_div"]
 MIN_NONTRIVIAL = 60
